@@ -64,7 +64,22 @@ func ModelAuditor(s *SUT, op Op) []Problem {
 	h := s.N.LedgerHeight()
 	m, bad := applyPool(base, pool, h)
 	if bad != nil {
-		return []Problem{{Sig: "model|pool-not-conflict-free", Detail: fmt.Sprintf(
+		kind := "other"
+		sig := ""
+		if in, ok := bad.(*poolErr); ok {
+			kind = in.Reason.Kind
+			// narrow precondition of the known PlayAndRepost finding: a pool transaction that read
+			// key K stays in the pool after a Play whose block confirmed a writer of K that had
+			// been admitted to the pool AFTER the reader (the "known in the pool" exception of
+			// processUnconfirmTxs)
+			if op.Kind == "play" && kind == "stale-key" && len(in.Reason.Current) > 64 && s.poolBeforePlay[in.Reason.Current[:64]] {
+				sig = "model|pool-stale-reader-kept-after-play|writer-was-in-pool"
+			}
+		}
+		if sig == "" {
+			sig = "model|pool-not-conflict-free|" + kind + "|after-" + op.Kind
+		}
+		return []Problem{{Sig: sig, Detail: fmt.Sprintf(
 			"no sequential order makes the %d pool transactions admissible on chain state at block %d: %v", len(pool), tip, bad)}}
 	}
 	var ps []Problem
@@ -165,7 +180,11 @@ func applyPool(base *refmodel.State, pool []*pb.Transaction, h int64) (*refmodel
 		m := base.Copy()
 		for _, x := range o {
 			if err := m.Check(x, h); err != nil {
-				return nil, fmt.Errorf("tx %x: %v", x.Txid, err)
+				pe := &poolErr{Txid: x.Txid}
+				if in, ok := err.(*refmodel.Inadmissible); ok {
+					pe.Reason = *in
+				}
+				return nil, pe
 			}
 			m.Apply(x, "")
 		}
@@ -206,3 +225,10 @@ func decodeItem(b []byte) *utxo.UtxoItem {
 	}
 	return it
 }
+
+type poolErr struct {
+	Txid   []byte
+	Reason refmodel.Inadmissible
+}
+
+func (e *poolErr) Error() string { return fmt.Sprintf("tx %x: %s", e.Txid, e.Reason.Why) }
